@@ -106,14 +106,15 @@ def run(ctx, rep):
 
     # ------------------------------------------------------------------ R2 single stream / read loop / grouping
     single = [lp for lp in walk_nodes(f.node.body, ast.For) if utext(lp.iter) == "stream_gen()"]
-    good = len(single) == 1 and not loop_body_exits_early(single[0]) and len(single[0].body) == 1 and \
-        isinstance(single[0].body[0], ast.Expr)
+    from sa.kinds import sbody, ctext
+    good = len(single) == 1 and not loop_body_exits_early(single[0]) and len(sbody(single[0].body)) == 1 and \
+        isinstance(sbody(single[0].body)[0], ast.Expr)
     if good:
         c = [c for c in walk_calls(single[0].body) if call_name(c) == "_process_market_books"]
         good = len(c) == 1 and utext(c[0].args[0]) == "events.MarketBookEvent(%s)" % utext(single[0].target)
     rep.check(good, "R2", key(f, None, "single-market branch: one _process_market_books per yielded batch"), f)
     grp = [lp for lp in walk_nodes(f.node.body, ast.For) if utext(lp.iter) == "self.streams"]
-    good = len(grp) == 1 and [utext(s) for s in grp[0].body] == ["event_group_streams[stream.event_group].append(stream)"]
+    good = len(grp) == 1 and [utext(s) for s in sbody(grp[0].body)] == ["event_group_streams[stream.event_group].append(stream)"]
     rep.check(good, "R2", key(f, None, "streams are grouped in registration order"), f)
     og = [lp for lp in walk_nodes(f.node.body, ast.For) if utext(lp.iter) == "event_group_streams.items()"]
     rep.check(len(og) == 1 and not loop_body_exits_early(og[0]), "R2", key(f, None, "every group is processed"), f)
@@ -124,8 +125,8 @@ def run(ctx, rep):
     good = len(lps) == 1 and not loop_body_exits_early(lps[0]) and not walk_nodes(lps[0].body, ast.Continue)
     if good:
         ys = walk_nodes(lps[0].body, ast.Yield)
-        ifs = [s for s in lps[0].body if isinstance(s, ast.If)]
-        good = len(ys) == 1 and len(ifs) == 1 and len(lps[0].body) == 1 and utext(ifs[0].test) == "listener_on_data(%s)" % utext(lps[0].target) \
+        ifs = [s for s in sbody(lps[0].body) if isinstance(s, ast.If)]
+        good = len(ys) == 1 and len(ifs) == 1 and len(sbody(lps[0].body)) == 1 and utext(ifs[0].test) == "listener_on_data(%s)" % utext(lps[0].target) \
             and not ifs[0].orelse
         rd = [s for s in walk_nodes(rl.node.body, ast.Assign) if utext(s.targets[0]) == "file"]
         good = good and len(rd) == 1 and utext(rd[0].value) == "f.readlines()"
@@ -150,7 +151,7 @@ def run(ctx, rep):
             if isinstance(s, ast.Assign) and any(utext(t) == "datetime.datetime" for t in s.targets):
                 rep.violation("R3", "%s: datetime.datetime rebound at import time" % m.relpath)
     ex = prog.own_method("SimulatedDateTime", "__exit__")
-    body = [utext(s) for s in ex.node.body]
+    body = [utext(s) for s in sbody(ex.node.body)]
     rep.check(body == ["datetime.datetime = self._real_datetime"], "R3",
               key(ex, None, "__exit__ restores the real class unconditionally (also when the run raised)"), ex, None, str(body))
     en = prog.own_method("SimulatedDateTime", "__enter__")
